@@ -423,6 +423,8 @@ var bitAlphabet = []asn.BitString{
 	{Bytes: []byte{0x80}, BitLength: 1}, {Bytes: []byte{}, BitLength: 0}, {Bytes: []byte{0xfe}, BitLength: 7}, {Bytes: []byte{0xa5}, BitLength: 8},
 	{Bytes: []byte{0xff, 0x80}, BitLength: 9}, {Bytes: []byte{0xff, 0xfe}, BitLength: 15}, {Bytes: []byte{0x12, 0x34}, BitLength: 16},
 	{Bytes: []byte{1, 2, 0x80}, BitLength: 17}, {Bytes: make([]byte, 32), BitLength: 256}, {Bytes: make([]byte, 200), BitLength: 1597},
+	// padding bits that are not zero (BER leaves them to the sender; what was marshalled must come back)
+	{Bytes: []byte{0xff}, BitLength: 1}, {Bytes: []byte{0xff, 0xff}, BitLength: 9},
 }
 
 type builder struct {
